@@ -204,6 +204,28 @@ def v2Entries (c : ChV2Cfg) : Option (List V2Entry) :=
 
 def sameSet (a b : List Nat) : Bool := a.all (b.contains ·) && b.all (a.contains ·)
 
+/-- BEGIN t3 (release rule on any history) --
+The release rule, on ANY consistent history: the marker of a chord goes up only after a participant
+of that chord was released - one of them (first-release), every one of them (all-released) - since
+the chord's keys went down. Per marker the down- and up-transitions are paired in order; `t0` is the
+earliest among the participants' last presses before the marker went down. Nothing is said when a
+participant was never pressed before the marker went down (not attributable). -/
+def releaseRuleErrs (es : List V2Entry) (ev : List (Nat × HEv)) (tr : List (Nat × Nat × Bool)) : List String :=
+  es.flatMap fun e =>
+    let dns := (tr.filter fun x => x.2.2 && x.2.1 == e.marker).map (·.1)
+    let ups := (tr.filter fun x => !x.2.2 && x.2.1 == e.marker).map (·.1)
+    (dns.zip ups).filterMap fun (d, u) =>
+      let lastPress := fun (k : Nat) =>
+        (ev.filterMap fun (t, x) => match x with | .press c => if c == (0, k) && t < d then some t else none | _ => none).getLast?
+      if e.keys.any (fun k => (lastPress k).isNone) then none else
+      let t0 := (e.keys.filterMap lastPress).foldl min u
+      let released := fun (k : Nat) =>
+        ev.any fun (t, x) => match x with | .release c => c == (0, k) && t0 ≤ t && t < u | _ => false
+      let ok := if e.firstRelease then e.keys.any released else e.keys.all released
+      if ok then none
+      else some s!"marker {e.marker} of chord {e.keys} went up at tick {u} (down at {d}) while {if e.firstRelease then "none" else "not all"} of its keys had been released (keys down since {t0})"
+-- END t3 --
+
 def judgeV2 (es : List V2Entry) (l : Layout) (hist : List HEv) (items : List Trace.Item) : String :=
   let markers := es.map (·.marker)
   let plain0 := plainOf (layer0 l)
@@ -214,8 +236,10 @@ def judgeV2 (es : List V2Entry) (l : Layout) (hist : List HEv) (items : List Tra
   let ev := timed hist
   let nEv := ev.length
   let tail := match hist.getLast? with | some (.tick n) => n | _ => 0
-  if !consistent hist || tail < 300 || nEv > 40 || nEv == 0 then "skip" else
+  if !consistent hist || tail < 300 || nEv == 0 then "skip" else
   let tr := transitions items
+  -- t3: long histories (more than 40 events) are judged by the release rule alone
+  if nEv > 40 then (match releaseRuleErrs es ev tr with | [] => "ok" | e :: _ => s!"fail {e}") else
   let presses := ev.filterMap fun (t, e) => match e with | .press c => some (t, c) | _ => none
   let releases := ev.filterMap fun (t, e) => match e with | .release c => some (t, c) | _ => none
   let tLastRel := (releases.map (·.1)).foldl max 0
@@ -273,12 +297,19 @@ def judgeV2 (es : List V2Entry) (l : Layout) (hist : List HEv) (items : List Tra
         else if D ≥ e.pending + 1 then
           -- (the implementation's window is one tick longer than the configured number: D = timeout is not judged)
           if mdowns.contains e.marker then errs := errs ++ [s!"chord {S} completed {D} ticks after its first key (timeout {e.pending}) but fired"]
+    errs := errs ++ releaseRuleErrs es ev tr   -- t3
     return errs
   match errs with
   | [] => "ok"
   | e :: _ => s!"fail {e}"
 
+/-- t3: a chord action on a layer other than the first (the parsed table no longer says which chord key
+such a cell names: judged from the configuration text by the runner's source-level oracle) -/
+def chordsOnOtherLayers (l : Layout) : Bool :=
+  (l.cfg.layers.drop 1).any fun tbl => tbl.any fun (_, a) => match a with | .chords .. => true | _ => false
+
 def setupOf (l : Layout) : Option Setup :=
+  if chordsOnOtherLayers l then none else
   match grpV1 l with
   | some g =>
     let lk := (layer0 l).findSome? fun (c, a) => match a with | .layer _ => some c | _ => none
